@@ -1264,6 +1264,14 @@ impl World {
         }
     }
 
+    pub fn has_open_request(&self) -> bool {
+        self.open_nonce().is_some()
+    }
+
+    pub fn offline_names(&self) -> Vec<String> {
+        self.offline.keys().cloned().collect()
+    }
+
     pub fn cms_len(&self, name: &str) -> usize {
         self.cms.get(name).map(|s| s.bytes.len()).unwrap_or(0)
     }
